@@ -82,6 +82,10 @@ def check_case(case: dict):
         before = (ac.token, ac.key)
         mark = len(dev.log)
         kind = mut[0]
+        if kind == "genuine" and case.get("lost_first"):
+            # the first `lost_first` handshake requests get lost on the way (never reach the unit's application): the client asks
+            # again within its retry budget and the genuine reply to that request authenticates
+            dev.hs_script = [("drop",)] * case["lost_first"]
         if kind == "genuine":
             if case.get("cuts"):
                 # the genuine reply reaches the client in several TCP segments (all of them well within the 2 s read timeout:
@@ -174,9 +178,9 @@ def check_case(case: dict):
         if out["after_creds"] != (token.hex(), key.hex()):
             return ("genuine/creds", f"Device.token/key {out['after_creds']} != supplied")
         hs_reqs = [e for e in out["during"] if e[0] == "hs_req"]
-        if len(hs_reqs) != 1:
+        if len(hs_reqs) != 1 + case.get("lost_first", 0):
             # the (prompt) genuine reply to the first request was not taken: the client asked again
-            return ("genuine/retransmitted", f"{len(hs_reqs)} handshake requests were needed although the first one was answered promptly with the genuine reply (cuts {case.get('cuts')})")
+            return ("genuine/retransmitted", f"{len(hs_reqs)} handshake requests were seen, {1 + case.get('lost_first', 0)} expected ({case.get('lost_first', 0)} lost on the way, then a prompt genuine reply; cuts {case.get('cuts')})")
         if not out["online"]:
             return ("genuine/refresh", f"refresh after authentication failed; device saw {out['data_events']}")
         bad = [e for e in out["data_events"] if e[0] != "data" or e[2] != out["latest_gen"]]
@@ -222,7 +226,7 @@ def _nt(case) -> bool:
 
 
 def _run_one(ctx, case):
-    ctx.case(hash((case["token"], case["key"], repr(case["mut"]), case.get("prior"), case.get("token_form"), case.get("key_form"), case.get("nonce"), tuple(case.get("cuts", [])), case.get("gap"))),
+    ctx.case(hash((case["token"], case["key"], repr(case["mut"]), case.get("prior"), case.get("token_form"), case.get("key_form"), case.get("nonce"), tuple(case.get("cuts", [])), case.get("gap"), case.get("lost_first"))),
              _nt(case), cls=f"{case['mut'][0]}/{case.get('prior', 'fresh')}")
     ctx.sample(f"{case['mut'][0]}/{case.get('prior', 'fresh')}", case)
     return check_case(case)
@@ -254,6 +258,18 @@ def run(ctx) -> None:
                             "cuts": [cut] + ([two] if two else []), "gap": [0.0, 0.01, 0.3][g % 3]}
                     ctx.check(case, lambda c: _run_one(ctx, c))
     ctx.sweep("genuine replies containing the start marker x segmentations", g, True)
+    # the first one or two handshake requests are lost, the next one is answered genuinely: in every prior state, both credential forms
+    lf = 0
+    for s_ in range(3):
+        tok, key = _creds(70 + s_)
+        for prior in ("fresh", "authed", "late", "expired"):
+            for lost in (1, 2):
+                lf += 1
+                if ctx.mine(lf):
+                    case = {"token": tok.hex(), "key": key.hex(), "nonce": "%02x" % (lf & 0xFF), "token_form": ["bytes", "hex"][lf % 2], "key_form": ["hex", "bytes"][lf % 2], "prior": prior,
+                            "mut": ["genuine"], "lost_first": lost}
+                    ctx.check(case, lambda c: _run_one(ctx, c))
+    ctx.sweep("handshake requests lost before a genuine reply x prior states", lf, True)
     n = 0
     sets = 2 if ctx.quick else 8
     for s in range(sets):
@@ -288,5 +304,6 @@ def run(ctx) -> None:
         "token": hexb(gens.tokens64()), "key": hexb(gens.keys32()), "nonce": hexb(st.binary(min_size=1, max_size=8)),
         "token_form": st.sampled_from(["bytes", "hex"]), "key_form": st.sampled_from(["bytes", "hex"]),
         "prior": st.sampled_from(["fresh", "fresh", "authed", "late", "expired"]), "mut": mut, "id": gens.device_ids(48)},
-        optional={"cuts": st.lists(st.integers(1, 71), min_size=1, max_size=4, unique=True).map(sorted), "gap": st.sampled_from([0.0, 0.01, 0.5])})
+        optional={"cuts": st.lists(st.integers(1, 71), min_size=1, max_size=4, unique=True).map(sorted), "gap": st.sampled_from([0.0, 0.01, 0.5]),
+                  "lost_first": st.sampled_from([0, 0, 1, 2])})
     ctx.hyp("generated", cases, lambda c: _run_one(ctx, c), ctx.n(2400, 128000))
